@@ -307,8 +307,12 @@ func (ir *ifdReader) ParseUint32(t Tag) uint32 {
 	case tag.TypeLong:
 		return uint32(t.ValueOffset)
 	case tag.TypeShort:
-		t.EmbeddedValue(ir.buffer.buf[:4])
-		return uint32(t.ByteOrder.Uint16(ir.buffer.buf[:4]))
+		// the first SHORT of the value, which lies in the entry for up to two SHORTs and out of line beyond
+		buf, err := ir.readTagValue(t)
+		if err != nil || len(buf) < 2 {
+			return 0
+		}
+		return uint32(t.ByteOrder.Uint16(buf[:2]))
 	default:
 		if ir.logLevelWarn() {
 			t.logTag(ir.logWarn()).Msg("Unrecognized tag type")
